@@ -46,7 +46,10 @@ def run(tier):
     def add(c, start, prog_lines, prog_hex, pre_cmds=(), tag="grid", mid_cmds=(), internal=False):
         lens = [len(h) // 2 for h in prog_hex]
         total_max = sum(lens) + len(lens) * 16 + 64  # a pad is always shorter than the instruction it precedes
-        cmds = ["new 0 int" if internal else "new 0 ext %d H 0xcc" % (start + total_max + 32)] + list(pre_cmds) + ["chunk 0 %d" % c] + list(mid_cmds) + ["setoff 0 %d" % start,
+        # caller buffers at EVERY alignment of their address: a heap block (16-byte aligned), or a buffer that ends at a page end and
+        # therefore starts at (page end - length) - chunks are counted from the buffer start, whatever its address is
+        n_ext = start + total_max + 32 + (len(cases) % 61)
+        cmds = ["new 0 int" if internal else "new 0 ext %d %s 0xcc" % (n_ext, "H" if len(cases) % 3 else "R")] + list(pre_cmds) + ["chunk 0 %d" % c] + list(mid_cmds) + ["setoff 0 %d" % start,
                 "asm 0 %s" % common.hx("\n".join(prog_lines)), "getoff 0", "dump 0 %d %d" % (start, start + total_max)]
         cases.append(cmds)
         meta.append((c, start, prog_lines, prog_hex, lens, tag, len(pre_cmds) + len(mid_cmds)))
